@@ -12,6 +12,7 @@ import (
 	"github.com/wkhere/bcl"
 
 	"verif/mc/fw"
+	"verif/mc/impl"
 )
 
 // C05 — Unmarshal reproduces configuration values in Go structs.
@@ -381,6 +382,21 @@ func c05Exec(cs fw.Case) *fw.Fail {
 		}
 		if w, g := canonValue(want.Elem()), canonValue(target.Elem()); w != g {
 			return fw.Failf("target deeply equal to the written value "+w+" for\n"+src.String(), "%s", g)
+		}
+		// the file variant must fill a second, pre-filled target identically
+		if c.Slice >= 0 || len(c.Vals)%3 == 0 {
+			t2 := reflect.New(target.Elem().Type())
+			if c.Slice >= 0 {
+				t2.Elem().Set(reflect.MakeSlice(target.Elem().Type(), 2, 5))
+			}
+			txt := src.String()
+			ferr := bcl.UnmarshalFile(impl.NewScriptFile(txt, impl.Chunks(len(txt)/3, len(txt)/3)), t2.Interface(), bcl.OptOutput(&out), bcl.OptLogger(&log))
+			if ferr != nil {
+				return fw.Failf("UnmarshalFile succeeds for\n"+txt, "error: %v (log %q)", ferr, log.String())
+			}
+			if w, g := canonValue(want.Elem()), canonValue(t2.Elem()); w != g {
+				return fw.Failf("UnmarshalFile: target deeply equal to the written value "+w+" for\n"+txt, "%s", g)
+			}
 		}
 		fw.TallyOutcome(fmt.Sprintf("roundtrip-ok-slice=%v", c.Slice >= 0))
 		fw.TallyNontrivial()
